@@ -1,6 +1,7 @@
 import XtModel.Model.Wire
 import XtModel.Model.Encoding
 import XtModel.Model.Input
+import XtModel.Model.TomlOrder
 
 /-!
 Native driver: one case per input line, one answer per output line
@@ -105,12 +106,55 @@ def handle (fs : List String) : String :=
       let obs := Input.handleProgram (Input.Source.new bs cs cyc fa) ops
       if obs.isEmpty then "-" else " ".intercalate (obs.map obsTok)
     | _, _, _, _ => "bad-case"
+/-! ### tomlorder: `s<tag>` | `a[x;y]` | `t{k=x;k=y}` -/
+open Xt.TomlOrder in
+partial def renderTV : TV → String
+  | .scalar t => s!"s{t}"
+  | .arr xs => "a[" ++ ";".intercalate (xs.map renderTV) ++ "]"
+  | .tbl es => "t{" ++ ";".intercalate (es.map fun (k, v) => s!"{k}=" ++ renderTV v) ++ "}"
+
+def takeNat (cs : List Char) : Nat × List Char :=
+  let ds := cs.takeWhile Char.isDigit
+  (ds.foldl (fun n c => n * 10 + (c.toNat - '0'.toNat)) 0, cs.drop ds.length)
+
+open Xt.TomlOrder in
+mutual
+  partial def parseTV : List Char → Option (TV × List Char)
+    | 's' :: cs => let (n, r) := takeNat cs; some (.scalar n, r)
+    | 'a' :: '[' :: ']' :: cs => some (.arr [], cs)
+    | 'a' :: '[' :: cs => (parseItems cs []).map fun (xs, r) => (.arr xs, r)
+    | 't' :: '{' :: '}' :: cs => some (.tbl [], cs)
+    | 't' :: '{' :: cs => (parseEntries cs []).map fun (es, r) => (.tbl es, r)
+    | _ => none
+  partial def parseItems (cs : List Char) (acc : List TV) : Option (List TV × List Char) :=
+    match parseTV cs with
+    | some (v, ';' :: r) => parseItems r (v :: acc)
+    | some (v, ']' :: r) => some ((v :: acc).reverse, r)
+    | _ => none
+  partial def parseEntries (cs : List Char) (acc : List (Nat × TV)) : Option (List (Nat × TV) × List Char) :=
+    let (k, r) := takeNat cs
+    match r with
+    | '=' :: r =>
+      match parseTV r with
+      | some (v, ';' :: r) => parseEntries r ((k, v) :: acc)
+      | some (v, '}' :: r) => some (((k, v) :: acc).reverse, r)
+      | _ => none
+    | _ => none
+end
+
+def tomlorder (fs : List String) : String :=
+  match fs with
+  | ["tomlorder", tree] =>
+    match parseTV tree.toList with
+    | some (v, []) => renderTV (Xt.TomlOrder.written v)
+    | _ => "bad-case"
   | _ => "bad-case"
 
 def answer (fs : List String) : String :=
   match fs with
   | "encdetect" :: _ | "reencode" :: _ | "reencstream" :: _ => encoding fs
   | "handle" :: _ => handle fs
+  | "tomlorder" :: _ => tomlorder fs
   | _ => "bad-engine"
 
 partial def loop (h : IO.FS.Stream) (out : IO.FS.Stream) : IO Unit := do
